@@ -6,7 +6,9 @@ package signaling
 // computed here with the standard library and the pure routing function.
 
 import (
+	"encoding/hex"
 	"fmt"
+	"net"
 	"net/url"
 	"strconv"
 	"strings"
@@ -480,11 +482,20 @@ type c01CaseGen struct {
 	sess int // sessions the generator believes to exist (upper bound)
 }
 
-var c01ClientAddrs = []string{"198.51.100.7", "198.51.100.8", "2001:db8::1", "198.51.100.7"}
+var c01ClientAddrs = []string{"198.51.100.7", "198.51.100.8", "2001:db8::1", "198.51.100.7", "2001:db8::2", "2001:db8:0:1::1"}
 
 func (g *c01CaseGen) connect() int {
+	return g.connectFrom(c01ClientAddrs[g.r.intn(len(c01ClientAddrs))])
+}
+
+func (g *c01CaseGen) connectFrom(addr string) int {
 	g.next++
-	g.ops = append(g.ops, fmt.Sprintf("connect c=%d addr=%s", g.next, vEnc(c01ClientAddrs[g.r.intn(len(c01ClientAddrs))])))
+	// classification of the address for the throttle key: standard library only
+	akey := "r:" + vEnc(addr)
+	if ip := net.ParseIP(addr); ip != nil && ip.To4() == nil {
+		akey = "6:" + hex.EncodeToString(ip.To16())
+	}
+	g.ops = append(g.ops, fmt.Sprintf("connect c=%d addr=%s akey=%s", g.next, vEnc(addr), akey))
 	return g.next
 }
 
@@ -663,21 +674,33 @@ func c01GenCase(r *vRand, kind int) vCase {
 		for i, n := 0, 3+r.intn(5); i < n; i++ {
 			c := g.connect()
 			for j, m := 0, 1+r.intn(3); j < m; j++ {
-				g.helloV2(c, muts())
+				k := muts()
+				g.helloV2(c, k)
+				if k == 0 {
+					break // probably accepted: further hellos on this connection would be ignored
+				}
 			}
 		}
 	case 1: // protocol 1.0
 		for i, n := 0, 3+r.intn(4); i < n; i++ {
 			c := g.connect()
 			for j, m := 0, 1+r.intn(2); j < m; j++ {
-				g.helloV1(c, muts())
+				k := muts()
+				g.helloV1(c, k)
+				if k == 0 {
+					break
+				}
 			}
 		}
 	case 2: // internal
 		for i, n := 0, 2+r.intn(4); i < n; i++ {
 			c := g.connect()
 			for j, m := 0, 1+r.intn(3); j < m; j++ {
-				g.helloInternal(c, muts())
+				k := muts()
+				g.helloInternal(c, k)
+				if k == 0 {
+					break
+				}
 			}
 		}
 	case 3: // resume
@@ -735,19 +758,43 @@ func c01GenCase(r *vRand, kind int) vCase {
 				g.ops = append(g.ops, fmt.Sprintf("bye c=%d", c))
 			}
 		}
-	case 5: // brute force: many bad resume ids / internal tokens from one address
-		c := g.connect()
-		for i, n := 0, 9+r.intn(5); i < n; i++ {
-			if r.chance(1, 2) {
-				g.helloResume(c, "junk:"+vEnc(fmt.Sprintf("guess-%d", i)))
+	case 5: // brute force: many bad resume ids / internal tokens from one address, then the block
+		addr := r.pick([]string{"198.51.100.7", "2001:db8::1"})
+		other := "198.51.100.99"
+		if strings.Contains(addr, ":") && r.chance(1, 2) {
+			other = "2001:db8::2" // same /64: same throttle record
+		}
+		c := g.connectFrom(addr)
+		resume := r.chance(1, 2)
+		for i, n := 0, 8+r.intn(6); i < n; i++ {
+			if resume {
+				g.helloResume(c, r.pick([]string{"junk:" + vEnc(fmt.Sprintf("guess-%d", i)), "foreign", "pub:1", "mut:1:" + strconv.Itoa(i)}))
 			} else {
-				g.helloInternal(c, 1+r.intn(2))
+				h := &c01HelloSpec{C: c, Ver: "1.0", Auth: true, Params: true, Type: "internal", PKind: "internal",
+					Rnd: strings.Repeat("g", 32+r.intn(8)), XTok: r.pick([]string{"wrongsecret", "emptysecret", "trunc", "otherrandom"}),
+					Backend: c01TenantURL(r, g.target())}
+				g.ops = append(g.ops, h.line(g.w))
 			}
-			if r.chance(1, 6) {
-				c = g.connect()
+			if r.chance(1, 5) {
+				c = g.connectFrom(addr)
+			}
+			if r.chance(1, 8) {
+				// the other kind of attempt has its own record
+				resume = !resume
 			}
 		}
-		g.goodHello(c)
+		// correct credentials from the blocked address, and from another one
+		if resume {
+			c2 := g.connectFrom(other)
+			g.goodHello(c2)
+			g.ops = append(g.ops, fmt.Sprintf("disconnect c=%d", c2))
+			g.helloResume(c, fmt.Sprintf("priv:%d", 1))
+			g.helloResume(g.connectFrom(other), fmt.Sprintf("priv:%d", 1))
+		} else {
+			g.helloInternal(c, 0)
+			g.helloInternal(g.connectFrom(other), 0)
+		}
+		g.helloV1(g.connectFrom(addr), 0) // other hello kinds are not throttled
 	default: // session limits
 		for i, n := 0, 3+r.intn(5); i < n; i++ {
 			c := g.connect()
@@ -763,7 +810,7 @@ func c01GenCase(r *vRand, kind int) vCase {
 func vC01Gen(e *vEnv, r *vRand) []vCase {
 	c01InitKeys()
 	var cases []vCase
-	n := e.scale(360, 6000)
+	n := e.scale(1200, 12000)
 	weights := []int{0, 0, 0, 0, 0, 0, 1, 1, 1, 2, 2, 3, 3, 4, 4, 5, 6}
 	for i := 0; i < n; i++ {
 		rr := r.fork()
